@@ -754,6 +754,11 @@ def _list_variant(chk, mod, Wn, fn, body, main, flush, env, size, hop):
                 for s in ast.walk(wi[0]))
     chk.decide(ok, "C09.ops", Wn, short(ba), why="each block must be multiplied element-wise by the window", node=ba)
     lc = [n for n in ast.walk(wi[0]) if isinstance(n, ast.If) and unparse(n.test) == "len(wnd) != size"]
+    if not lc:
+        # the same test on its own, just before the window is applied: ``if wnd and len(wnd) != size: raise``
+        before_ = body[:body.index(wi[0])]
+        lc = [n for n in before_[-1:] if isinstance(n, ast.If) and not n.orelse
+              and unparse(n.test) in ("wnd and len(wnd) != size", "wnd and size != len(wnd)")]
     chk.decide(len(lc) == 1 and "ValueError" in unparse(lc[0].body[0]), "C09.ops", Wn, "window length must equal size",
                why="a shorter window would truncate the blocks silently", node=wi[0])
     # gain
